@@ -942,3 +942,29 @@ fn c09_int_or_big() {
     assert!(unsafe { GHOST_F } == Some((x as i128, 0)));
     assert!(matches!(&*r1, Num::BigInt(b) if b.to_i128() == Some(7)));
 }
+
+// ------------------------------------------------------------------------------------------
+// C08: big integers among themselves and against infinities, for every value up to 128 bits
+// (thorough tier: 7-8 minutes each).  Anything that goes through `BigInt::to_f64` on a symbolic
+// value (hashing, comparison with finite floats, `as_f64`) is *not* decidable here: CBMC models
+// the `powi` it uses as an unconstrained float, which yields spurious failures.
+// ------------------------------------------------------------------------------------------
+#[kani::proof]
+#[kani::unwind(20)]
+fn c08_big_cmp_big() {
+    let (x, y): (i128, i128) = kani::any();
+    let (a, b) = (MD::new(big(x)), MD::new(big(y)));
+    assert!((*a).cmp(&*b) == x.cmp(&y));
+    assert!((*a == *b) == (x == y));
+}
+#[kani::proof]
+#[kani::unwind(20)]
+fn c08_big_cmp_inf() {
+    let x: i128 = kani::any();
+    let f: f64 = kani::any();
+    kani::assume(f.is_infinite());
+    let (b, n) = (MD::new(big(x)), MD::new(Num::Float(f)));
+    let want = if f > 0.0 { Less } else { Greater };
+    assert!((*b).cmp(&*n) == want && (*n).cmp(&*b) == want.reverse());
+    assert!(*b != *n && *n != *b);
+}
